@@ -26,36 +26,19 @@ Proof.
 Qed.
 Print Assumptions C13_truncated_document_refused.
 
-(* ---- earlier forms of the global statement (kept for reference) ---- *)
-(* upto_root d = header ++ string table ++ leading PIs ++ root element of serialize d.
-   FULL for every table without a Wireless Village entry. *)
-Theorem C13_truncated_document_refused_non_wv : forall tbl,
-  forallb (fun l => negb ((l_id l =? 2301) || (l_id l =? 2302))) tbl = true ->
-  forall d evs n, denote tbl d = Some evs -> (n < length (upto_root d))%nat ->
-  exists e, parse tbl (S n) (firstn n (serialize d)) = PErr e.
-Proof.
-  intros tbl Hno d evs n. apply (truncated_refused tbl); [|exact typed_datetime_agree_proved].
-  intros l Hin Hwv. rewrite forallb_forall in Hno. specialize (Hno l Hin). rewrite Hwv in Hno. discriminate.
-Qed.
-Print Assumptions C13_truncated_document_refused_non_wv.
-
-(* every table; PARTIAL only in the premise on the WV typed decoders (see C04) *)
-Theorem C13_truncated_document_refused_partial : forall tbl,
-  (forall l, In l tbl -> (l_id l =? 2301) || (l_id l =? 2302) = true -> typed_wv_agree) ->
-  forall d evs n, denote tbl d = Some evs -> (n < length (upto_root d))%nat ->
-  exists e, parse tbl (S n) (firstn n (serialize d)) = PErr e.
-Proof. intros tbl Hwv d evs n. exact (truncated_refused tbl Hwv typed_datetime_agree_proved d evs n). Qed.
-Print Assumptions C13_truncated_document_refused_partial.
-
-(* the same for any proper prefix P (not only firstn of the full serialization) *)
-Theorem C13_proper_prefix_refused_partial : forall tbl,
-  (forall l, In l tbl -> (l_id l =? 2301) || (l_id l =? 2302) = true -> typed_wv_agree) ->
-  forall d evs P, denote tbl d = Some evs -> (exists Q, Q <> [] /\ upto_root d = P ++ Q) ->
+(* the same for any proper prefix P (not only firstn of the full serialization), FULL *)
+Theorem C13_proper_prefix_refused : forall tbl d evs P,
+  denote tbl d = Some evs -> (exists Q, Q <> [] /\ upto_root d = P ++ Q) ->
   exists e, parse tbl (S (length P)) P = PErr e.
-Proof. intros tbl Hwv d evs P. exact (parse_prefix_refused tbl Hwv typed_datetime_agree_proved d evs P). Qed.
-Print Assumptions C13_proper_prefix_refused_partial.
+Proof.
+  intros tbl d evs P. apply (parse_prefix_refused tbl); [|exact typed_datetime_agree_proved].
+  intros l _ _. exact typed_wv_agree_proved.
+Qed.
+Print Assumptions C13_proper_prefix_refused.
 
-(* ---- running out of bytes ---- *)
+(* ---- running out of bytes ----
+   (the four C13_end_of_buffer_..._partial names are kept for reference stability: each STATEMENT is proved in full;
+   "partial" referred to their being the mechanism of the global statement, which is now proved above) *)
 Theorem C13_end_of_buffer_content_partial : forall f env n st, s_rest st = [] ->
   content_loop (S f) env n st = PErr PE_END_OF_BUFFER.
 Proof. exact eob_content. Qed.
@@ -173,3 +156,40 @@ Example C13_ex_padding :
     POk [EvStartDoc 106 1104; EvStartElt (TagTok 0 63 (B "wml"%string)) [];
          EvEndElt (TagTok 0 63 (B "wml"%string)); EvEndDoc].
 Proof. vm_compute. repeat split; reflexivity. Qed.
+
+(* ====================================================================================================== *)
+(* HISTORY — SUPERSEDED STATEMENTS (still true, still checked; weaker forms of the FULL theorems above):       *)
+(*   C13_truncated_document_refused_non_wv, C13_truncated_document_refused_partial                            *)
+(*                                   -> superseded by C13_truncated_document_refused (no premise)             *)
+(*   C13_proper_prefix_refused_partial -> superseded by C13_proper_prefix_refused                             *)
+(* ====================================================================================================== *)
+
+
+(* upto_root d = header ++ string table ++ leading PIs ++ root element of serialize d.
+   FULL for every table without a Wireless Village entry. *)
+Theorem C13_truncated_document_refused_non_wv : forall tbl,
+  forallb (fun l => negb ((l_id l =? 2301) || (l_id l =? 2302))) tbl = true ->
+  forall d evs n, denote tbl d = Some evs -> (n < length (upto_root d))%nat ->
+  exists e, parse tbl (S n) (firstn n (serialize d)) = PErr e.
+Proof.
+  intros tbl Hno d evs n. apply (truncated_refused tbl); [|exact typed_datetime_agree_proved].
+  intros l Hin Hwv. rewrite forallb_forall in Hno. specialize (Hno l Hin). rewrite Hwv in Hno. discriminate.
+Qed.
+Print Assumptions C13_truncated_document_refused_non_wv.
+
+(* every table; PARTIAL only in the premise on the WV typed decoders (see C04) *)
+Theorem C13_truncated_document_refused_partial : forall tbl,
+  (forall l, In l tbl -> (l_id l =? 2301) || (l_id l =? 2302) = true -> typed_wv_agree) ->
+  forall d evs n, denote tbl d = Some evs -> (n < length (upto_root d))%nat ->
+  exists e, parse tbl (S n) (firstn n (serialize d)) = PErr e.
+Proof. intros tbl Hwv d evs n. exact (truncated_refused tbl Hwv typed_datetime_agree_proved d evs n). Qed.
+Print Assumptions C13_truncated_document_refused_partial.
+
+(* the same for any proper prefix P (not only firstn of the full serialization) *)
+Theorem C13_proper_prefix_refused_partial : forall tbl,
+  (forall l, In l tbl -> (l_id l =? 2301) || (l_id l =? 2302) = true -> typed_wv_agree) ->
+  forall d evs P, denote tbl d = Some evs -> (exists Q, Q <> [] /\ upto_root d = P ++ Q) ->
+  exists e, parse tbl (S (length P)) P = PErr e.
+Proof. intros tbl Hwv d evs P. exact (parse_prefix_refused tbl Hwv typed_datetime_agree_proved d evs P). Qed.
+Print Assumptions C13_proper_prefix_refused_partial.
+
